@@ -204,6 +204,11 @@ func scanSharedWrites(w *World) (checked []string, findings []writeFinding, assu
 								report(fmt.Sprintf("mutating method %s of a dependency called on a shared value", callee.String()), in)
 							}
 						case cm.IsInvoke():
+							if i > 0 && isByteSlice(a.Type()) && cm.Method.Pkg() != nil && safeDep(cm.Method.Pkg().Path()) && fillsBufferName(cm.Method.Name()) {
+								// e.g. hash.Hash.Sum(b) appends into b's spare capacity, io.Reader.Read(b) fills b
+								report("shared byte buffer passed to "+cm.Method.FullName()+", which writes into it", in)
+								continue
+							}
 							// interface method on a shared value: module interfaces are resolved through all implementers
 							handled := false
 							for _, T := range w.implementers(cm.Value.Type(), cm.Method) {
@@ -324,9 +329,10 @@ func mutatingMethodName(n string) bool {
 }
 
 // fillsBuffer: dependency functions that write into the byte slice they are given.
-func fillsBuffer(f *ssa.Function) bool {
-	n := f.Name()
-	return strings.HasPrefix(n, "Read") || n == "CryptBlocks" || n == "XORKeyStream" || strings.HasPrefix(n, "Put") || n == "Sum" && false
+func fillsBuffer(f *ssa.Function) bool { return fillsBufferName(f.Name()) }
+
+func fillsBufferName(n string) bool {
+	return strings.HasPrefix(n, "Read") || n == "CryptBlocks" || n == "XORKeyStream" || strings.HasPrefix(n, "Put") || n == "Sum"
 }
 
 // sharedValuesNoGlobals: taint from the given parameters only (for summaries).
@@ -685,6 +691,171 @@ func init() {
 		r.Coverage["functions_with_a_context_scanned"] = n
 		r.Coverage["context_arguments_checked"] = calls
 		r.Samples = []map[string]interface{}{{"obligation": "bmc:flow:every-context-passed-on-derives-from-the-caller's", "offenders": bad}}
+		return r
+	}
+}
+
+// C11, package-wide part 2: the outcome of a command is not ignored. In every function of the module,
+// the error produced by ValidateResponse (the completion code and transport error of a command folded
+// into one error) is compared with nil, and on the non-nil branch the function returns that error (or
+// one wrapping it) as its error result - so that a value is handed to the caller only for a command
+// that was answered with a normal completion code. A data-flow check over go/ssa (no solver).
+func unpropagatedCommandErrors(w *World) (bad []string, calls int) {
+	for f := range w.AllFuncs {
+		if f.Pkg == nil || f.Blocks == nil || !strings.HasPrefix(f.Pkg.Pkg.Path(), modPath) || strings.Contains(f.Pkg.Pkg.Path(), "/cmd/") || w.isContractFileFunc(f) {
+			continue
+		}
+		for _, b := range f.Blocks {
+			for _, in := range b.Instrs {
+				call, ok := in.(*ssa.Call)
+				if !ok {
+					continue
+				}
+				cal := call.Call.StaticCallee()
+				if cal == nil || cal.Name() != "ValidateResponse" || cal.Pkg == nil || cal.Pkg.Pkg.Path() != modPath {
+					continue
+				}
+				calls++
+				where := fmt.Sprintf("%s (%s)", w.funcDisplay(f), w.Fset.Position(call.Pos()))
+				refs := call.Referrers()
+				if refs == nil || len(*refs) == 0 {
+					bad = append(bad, where+": the result of ValidateResponse is discarded")
+					continue
+				}
+				// direct return of the error is fine; otherwise it must be compared with nil and returned on the non-nil side
+				ok2 := false
+				for _, r := range *refs {
+					switch u := r.(type) {
+					case *ssa.Return:
+						ok2 = true
+					case *ssa.Store:
+						// "return ValidateResponse(...)" in a function with deferred calls: the result goes
+						// through the result cell
+						if al, isAlloc := u.Addr.(*ssa.Alloc); isAlloc && u.Val == ssa.Value(call) {
+							for _, r2 := range *al.Referrers() {
+								if ld, isLoad := r2.(*ssa.UnOp); isLoad && ld.Op == token.MUL {
+									for _, r3 := range *ld.Referrers() {
+										if _, isRet := r3.(*ssa.Return); isRet {
+											ok2 = true
+										}
+									}
+								}
+							}
+						}
+					case *ssa.BinOp:
+						if u.Op != token.NEQ && u.Op != token.EQL {
+							continue
+						}
+						for _, br := range *u.Referrers() {
+							ifi, isIf := br.(*ssa.If)
+							if !isIf {
+								continue
+							}
+							blk := ifi.Block().Succs[0] // taken when the comparison is true
+							if u.Op == token.EQL {
+								blk = ifi.Block().Succs[1]
+							}
+							// the non-nil side must end in a return whose error result is (derived from) this error
+							if returnsError(blk, call, 0) {
+								ok2 = true
+							}
+						}
+					}
+				}
+				if !ok2 {
+					bad = append(bad, where+": a non-nil result of ValidateResponse does not end the function with that error")
+				}
+			}
+		}
+	}
+	sort.Strings(bad)
+	return
+}
+
+// returnsError: every path from b reaches (within a few blocks, no loops followed) a return whose
+// last result is v, or a value built from v (fmt.Errorf("...%w", v), a wrapper call taking v).
+func returnsError(b *ssa.BasicBlock, v ssa.Value, depth int) bool {
+	if depth > 6 {
+		return false
+	}
+	for _, in := range b.Instrs {
+		if r, ok := in.(*ssa.Return); ok {
+			if len(r.Results) == 0 {
+				return false
+			}
+			return derivesFrom(r.Results[len(r.Results)-1], v, 0)
+		}
+	}
+	if len(b.Succs) == 0 {
+		return false
+	}
+	for _, s := range b.Succs {
+		if !returnsError(s, v, depth+1) {
+			return false
+		}
+	}
+	return true
+}
+
+func derivesFrom(x, v ssa.Value, depth int) bool {
+	if x == v {
+		return true
+	}
+	if depth > 6 {
+		return false
+	}
+	switch y := x.(type) {
+	case *ssa.Phi:
+		for _, e := range y.Edges {
+			if derivesFrom(e, v, depth+1) {
+				return true
+			}
+		}
+	case *ssa.MakeInterface:
+		return derivesFrom(y.X, v, depth+1)
+	case *ssa.ChangeInterface:
+		return derivesFrom(y.X, v, depth+1)
+	case *ssa.Call:
+		for _, a := range y.Call.Args {
+			if derivesFrom(a, v, depth+1) {
+				return true
+			}
+		}
+	case *ssa.Slice:
+		return derivesFrom(y.X, v, depth+1)
+	case *ssa.Alloc:
+		// varargs array: stores into it
+		if refs := y.Referrers(); refs != nil {
+			for _, r := range *refs {
+				if ia, ok := r.(*ssa.IndexAddr); ok {
+					for _, r2 := range *ia.Referrers() {
+						if st, ok := r2.(*ssa.Store); ok && derivesFrom(st.Val, v, depth+1) {
+							return true
+						}
+					}
+				}
+			}
+		}
+	}
+	return false
+}
+
+func init() {
+	prev := specialChecks["C11"]
+	specialChecks["C11"] = func(w *World, prop string, thorough bool) specialResult {
+		r := prev(w, prop, thorough)
+		bad, calls := unpropagatedCommandErrors(w)
+		r.Obligations++
+		if len(bad) == 0 && calls > 0 {
+			r.Discharged++
+		} else {
+			p := fmt.Sprintf("%s/command_errors_propagated.txt", replayDir(prop))
+			writeTextFile(p, "// Replay record written by bmcvc.\n// property:   C11\n// obligation: bmc:flow:command-errors-are-propagated\n// result:     no failing input found (data-flow check)\n//\n//   "+strings.Join(bad, "\n//   ")+"\n")
+			r.Violations = append(r.Violations, fmt.Sprintf("VIOLATION property=%s replay=%s no-failing-input-found", prop, p))
+			fmt.Printf("  obligation bmc:flow:command-errors-are-propagated fails: %v\n", bad)
+		}
+		r.Coverage["validate_response_calls_checked"] = calls
+		r.Samples = append(r.Samples, map[string]interface{}{"obligation": "bmc:flow:command-errors-are-propagated", "offenders": bad})
 		return r
 	}
 }
